@@ -129,7 +129,9 @@ CHECKS = {
          "for field types without structural components the clause decider answers 'empty' exactly when every exact record of the positive is an open "
          "record of some negative, and 'not empty' comes with a separating record; C05_flat_object_conjunction_empty_iff_covered: the same for a "
          "conjunction of positive atoms under the engine's merge reading (open member of every atom, no key that none declares) "
-         "(Proofs/MappingSound.v; the abstract version is parametric in the element level). Partial: index signatures, the Map variant and the memoised "
+         "(Proofs/MappingSound.v; the abstract version is parametric in the element level); string index signatures are modelled (Model/MappingEmptyIx.v), "
+         "tied to the engine, and proved to coincide with the proved decider on index-free atoms (C05_index_aware_decider_agrees_on_index_free_atoms). "
+         "Partial: the index dimension itself, index signatures over finite / template key sets, the Map variant and the memoised "
          "co-inductive cut (recursive types; a listed finding shows it is unsound) are not proved; there the property is decided on the implementation by comparing every "
          "decision, on generated pairs converted in both orders and queried in two orders, with a bounded enumeration of the exact values "
          "of the left type. Six genuine defects were repaired in /repo (fix: a6cefb8, 16f31f9, 3a0fd83, 10e351d and the third list fix — "
